@@ -1,5 +1,11 @@
 package conversion
 
+import (
+	"net/http"
+
+	"k8s.io/apimachinery/pkg/runtime"
+)
+
 // Guarded stub of the conversion response decoder (encoding/json).
 var VResponseFromBytesFn func(data []byte) (*Response, error)
 
@@ -7,3 +13,45 @@ func vRespActive() bool { return VResponseFromBytesFn != nil }
 
 //verif:stub $R/pkg/webhook/conversion.ResponseFromBytes if vRespActive
 func vResponseFromBytes(data []byte) (*Response, error) { return VResponseFromBytesFn(data) }
+
+// Guarded stubs of the TLS server / CRD update side of the manager.
+var VNoServer bool
+
+func vNoServer() bool { return VNoServer }
+
+//verif:stub (*$R/pkg/webhook/conversion.WebhookManager).Init if vNoServer
+func vInit(m *WebhookManager) error {
+	m.Handler = &WebhookHandler{Manager: m}
+	return nil
+}
+
+//verif:stub (*$R/pkg/webhook/conversion.WebhookManager).Start if vNoServer
+func vStart(m *WebhookManager) error { return nil }
+
+// VServe runs the real HTTP handler body (exporter for the unexported method).
+func VServe(h *WebhookHandler, w http.ResponseWriter, r *http.Request) { h.serveReviewRequest(w, r) }
+
+// Objects in harness requests carry their apiVersion as the raw bytes (the JSON
+// decoding of object bodies is outside); ExtractAPIVersions is stubbed
+// accordingly, keeping its "unique, in order of first appearance" contract.
+var VPlainVersions bool
+
+func vPlainVersions() bool { return VPlainVersions }
+
+//verif:stub $R/pkg/webhook/conversion.ExtractAPIVersions if vPlainVersions
+func vExtractAPIVersions(objs []runtime.RawExtension) []string {
+	res := make([]string, 0)
+	for _, o := range objs {
+		v := string(o.Raw)
+		dup := false
+		for _, r := range res {
+			if r == v {
+				dup = true
+			}
+		}
+		if !dup {
+			res = append(res, v)
+		}
+	}
+	return res
+}
